@@ -206,7 +206,8 @@ fn generate0(rng: &mut Rng) -> C20Sc {
             6..=8 => Step::Delete { name: rng.pick(&names).clone() },
             9 => Step::Bookmark,
             10 | 11 => Step::DropWatch { how: rng.below(3) as u8 },
-            12 => Step::Http500 { lists: rng.below(3) as u32, watches: rng.below(3) as u32 },
+            // (now and then an outage of seven or eight refused watch requests in a row)
+            12 => Step::Http500 { lists: rng.below(3) as u32, watches: if rng.chance(1, 4) { *rng.pick(&[7u32, 8]) } else { rng.below(3) as u32 } },
             13 | 14 => Step::Compact,
             15 => Step::GoneNow,
             16 => Step::ExpireContinue,
@@ -314,6 +315,10 @@ pub const FUSED: u64 = 9_999;
 
 pub fn run(sc: &C20Sc) -> RunReport {
     let mut rep = RunReport { runs: 1, ..Default::default() };
+    // the liveness bound once faults stop: 180 s, plus the watcher's (jittered, capped at 30 s and doubled by the jitter)
+    // back-off for every refused request of the longest outage in the history
+    let outage = sc.steps.iter().map(|s| if let Step::Http500 { lists, watches } = s { u64::from(*lists + *watches) } else { 0 }).max().unwrap_or(0);
+    let settle_ns = SETTLE_NS + outage * 60_000_000_000;
     let rt = new_runtime(sc.seed);
     let api: Api = Arc::new(Mutex::new(ApiState { chunk_rng: Some(Rng::new(sc.seed ^ 0xc4)), ..Default::default() }));
     let mut model: BTreeMap<String, Gs> = BTreeMap::new();
@@ -480,7 +485,7 @@ pub fn run(sc: &C20Sc) -> RunReport {
                     }
                     settled = false;
                 }
-                if t - start > SETTLE_NS {
+                if t - start > settle_ns {
                     break;
                 }
             }
